@@ -342,6 +342,14 @@ func (x *Exec) execBuiltin(st *State, fr *Frame, name string, args []Value, dest
 		return r
 	case "clear":
 		switch a := args[0].(type) {
+		case SliceV:
+			if a.len > 0 {
+				z := x.zeroLike(x.load(st, x.sliceElemPtr(a, 0)))
+				for k := 0; k < a.len; k++ {
+					x.store(st, x.sliceElemPtr(a, k), z)
+				}
+			}
+			return nil
 		case MapV:
 			if a.obj != 0 {
 				st.heap[a.obj] = &MapObj{nextID: st.heap[a.obj].(*MapObj).nextID}
